@@ -339,6 +339,20 @@ fn gen_ops(rng: &mut Rng, v: &DataValue) -> OpS {
     }
 }
 
+/// 1 in 8: the set exists but the key is one of another set (or of none) - nothing can match
+fn foreign_key(rng: &mut Rng, p: &Pool, set: &str, key: String) -> String {
+    if !rng.chance(1, 8) {
+        return key;
+    }
+    let own: Vec<&String> = p.keys.iter().filter(|(s, _)| s == set).map(|(_, k)| k).collect();
+    let others: Vec<&String> = p.keys.iter().filter(|(s, k)| s != set && !own.contains(&k)).map(|(_, k)| k).collect();
+    if others.is_empty() || rng.chance(1, 3) {
+        "nokey".to_string()
+    } else {
+        others[rng.below(others.len())].clone()
+    }
+}
+
 /// a constraint that does not refer to variables
 pub fn gen_cs(rng: &mut Rng, p: &Pool, allow_union: bool) -> CS {
     let meta = rng.chance(1, 5);
@@ -356,6 +370,7 @@ pub fn gen_cs(rng: &mut Rng, p: &Pool, allow_union: bool) -> CS {
                 CS::Key("nope".into(), "nokey".into(), meta)
             } else {
                 let (s, k) = p.keys[rng.below(p.keys.len())].clone();
+                let k = foreign_key(rng, p, &s, k);
                 CS::Key(s, k, meta)
             }
         }
@@ -365,6 +380,7 @@ pub fn gen_cs(rng: &mut Rng, p: &Pool, allow_union: bool) -> CS {
             } else {
                 let (s, k, v) = p.values[rng.below(p.values.len())].clone();
                 let o = gen_ops(rng, &v);
+                let k = foreign_key(rng, p, &s, k);
                 CS::KeyVal(s, k, o, meta)
             }
         }
